@@ -292,6 +292,50 @@ pub fn run(reg: &dyn Registry, ctx: &Ctx) -> Outcome {
         // seed_from_u64 route (uses SplitMix64 / PCG internally)
         configs.push(vec![Inst { ty: info.name.into(), ctor: Ctor::FromU64(0), ops: vec![Op::U64, Op::U32] }, Inst { ty: info.name.into(), ctor: Ctor::FromU64(7), ops: vec![Op::U32, Op::U64] }]);
     }
+    // same-type pairs of *different* seeds that collide under the usual weak fingerprints (a seed-keyed
+    // process-wide cache that compares a digest instead of the seed): swapped words (XOR / sum folds),
+    // h*31+w over 32-bit words, 64-bit words and bytes, equal prefix, equal suffix
+    for ty in &types {
+        let info = ty.info();
+        let n = info.seed_len;
+        if n < 8 {
+            continue;
+        }
+        let mut a = dense(*ty, 5);
+        a[0] = 0x41;
+        a[1] = 0x10;
+        let mut variants: Vec<Vec<u8>> = Vec::new();
+        let mut v = a.clone();
+        for k in 0..4 {
+            v.swap(k, 4 + k);
+        }
+        variants.push(v);
+        let w = |s: &[u8], i: usize| u32::from_le_bytes([s[4 * i], s[4 * i + 1], s[4 * i + 2], s[4 * i + 3]]);
+        let mut v = a.clone();
+        v[0..4].copy_from_slice(&w(&a, 0).wrapping_sub(1).to_le_bytes());
+        v[4..8].copy_from_slice(&w(&a, 1).wrapping_add(31).to_le_bytes());
+        variants.push(v);
+        if n >= 16 {
+            let q = |s: &[u8], i: usize| u64::from_le_bytes([s[8 * i], s[8 * i + 1], s[8 * i + 2], s[8 * i + 3], s[8 * i + 4], s[8 * i + 5], s[8 * i + 6], s[8 * i + 7]]);
+            let mut v = a.clone();
+            v[0..8].copy_from_slice(&q(&a, 0).wrapping_sub(1).to_le_bytes());
+            v[8..16].copy_from_slice(&q(&a, 1).wrapping_add(31).to_le_bytes());
+            variants.push(v);
+        }
+        let mut v = a.clone();
+        v[0] = 0x40;
+        v[1] = 0x2f;
+        variants.push(v);
+        let mut v = a.clone();
+        v[n - 1] ^= 0x80;
+        variants.push(v);
+        let mut v = a.clone();
+        v[2] ^= 0x01;
+        variants.push(v);
+        for b in variants {
+            configs.push(vec![Inst { ty: info.name.into(), ctor: Ctor::FromSeed(a.clone()), ops: vec![Op::U64, Op::U32] }, Inst { ty: info.name.into(), ctor: Ctor::FromSeed(b), ops: vec![Op::U64, Op::U32] }]);
+        }
+    }
     // cross-type pairs: each type with the next, every xoshiro type with SplitMix64; zero seeds and dense seeds
     for (i, ty) in types.iter().enumerate() {
         let next = types[(i + 1) % types.len()];
